@@ -7,6 +7,7 @@ import (
 	"fmt"
 	"io"
 	"net"
+	"net/netip"
 	"sort"
 	"strconv"
 	"strings"
@@ -14,6 +15,7 @@ import (
 
 	apicommon "github.com/enfein/mieru/v3/apis/common"
 	"github.com/enfein/mieru/v3/pkg/appctl/appctlpb"
+	"github.com/enfein/mieru/v3/pkg/common"
 	"github.com/enfein/mieru/v3/pkg/egress"
 	"github.com/enfein/mieru/v3/pkg/socks5"
 	"google.golang.org/protobuf/proto"
@@ -208,6 +210,15 @@ func c12DstClass(d c12Dst) (class string, local, strictLoop, priv, public bool) 
 		c, lo, st, pr := ipClass(ip, "ip-literal-text-")
 		return c, lo, st, pr, !lo && !pr
 	}
+	if strings.IndexByte(d.FQDN, '%') >= 0 {
+		// an IPv6 literal with a zone is an address (the resolver drops the zone and returns it); any other
+		// text with a '%' is neither an address nor a host name the property speaks about: no opinion
+		if a, err := netip.ParseAddr(d.FQDN); err == nil {
+			c, lo, st, pr := ipClass(a.WithZone("").AsSlice(), "ip-literal-zoned-")
+			return c, lo, st, pr, false
+		}
+		return "name-with-percent", false, false, false, false
+	}
 	// an ordinary name; "public" only if it is plain ASCII (no exotic case folding can apply)
 	ascii := true
 	for i := 0; i < len(d.FQDN); i++ {
@@ -242,8 +253,10 @@ func (c12Resolver) LookupIP(ctx context.Context, network, host string) ([]net.IP
 	} else if b {
 		return []net.IP{net.ParseIP("::1")}, nil
 	}
-	if ip := net.ParseIP(host); ip != nil {
-		return []net.IP{ip}, nil
+	if _, err := netip.ParseAddr(host); err == nil {
+		// an address literal (possibly with an IPv6 zone): what the production resolver (net.Resolver behind
+		// HostMapResolver) answers — no network traffic is involved for literals
+		return (&net.Resolver{}).LookupIP(ctx, network, host)
 	}
 	if strings.HasSuffix(h, ".test") {
 		return []net.IP{net.ParseIP("127.0.0.1")}, nil
@@ -340,14 +353,23 @@ func c12UserArg(u *string) string {
 	return "u" + core.Hex([]byte(*u))
 }
 
+// c12Literal is the `net.ParseIP` oracle handed to the model: Go's own answers for the destination text
+// and for the text up to its first '%' (the model decides which of the two it asks about).
 func c12Literal(fqdn string, isDomain bool) string {
-	if !isDomain {
+	if !isDomain || fqdn == "" {
 		return "none"
 	}
-	if ip := net.ParseIP(fqdn); ip != nil {
-		return core.Hex(ip)
+	ans := func(s string) string {
+		if ip := net.ParseIP(s); ip != nil {
+			return core.Hex(ip)
+		}
+		return "none"
 	}
-	return "none"
+	t := "T" + core.Hex([]byte(fqdn)) + "=" + ans(fqdn)
+	if i := strings.IndexByte(fqdn, '%'); i >= 0 {
+		t += "," + core.Hex([]byte(fqdn[:i])) + "=" + ans(fqdn[:i])
+	}
+	return t
 }
 
 func c12May(cfg *c12Cfg, u *string) (mayLoop, mayPriv, flaggedBoth bool) {
@@ -709,6 +731,10 @@ func c12ReadReply(conn net.Conn) (code int, raw []byte) {
 
 var c12E2E *c12Net
 
+// scope boundary of the property (theorem Mieru.C12.resolved_name_reaches_loopback_witness): ordinary names that
+// the resolver maps to a loopback address, dialled / relayed for users WITHOUT the loopback flag
+var c12ScopeConnect, c12ScopeDatagram int
+
 func c12RunServe(c *core.Ctx, k c12Case) {
 	if c12E2E == nil {
 		c.Res.Discarded++
@@ -739,15 +765,29 @@ func c12RunServe(c *core.Ctx, k c12Case) {
 			d, cmd, parsed = dd, data[1], true
 		}
 	}
-	if !parsed || cmd != 1 {
-		c.Res.Discarded++ // the end-to-end scenario only plays CONNECT requests (ASSOCIATE: kind udp)
+	if !parsed {
+		c.Res.Discarded++
 		return
 	}
 	user := ""
 	if k.User != nil {
 		user = *k.User
 	}
-	m := c.Model.Ask("socks-req %s %s %s", c12UserArg(&user), c12Literal(d.FQDN, d.Form == "domain"), core.Hex(data))
+	// what the server's resolver followed by SelectIPFromList gives for the request's name (library calls,
+	// handed to the model as data)
+	resolved := "none"
+	if d.Form == "domain" && d.FQDN != "" {
+		if ips, err := (c12Resolver{}).LookupIP(context.Background(), "ip", d.FQDN); err == nil {
+			if ip := common.SelectIPFromList(ips, common.USE_FIRST_IP); ip != nil {
+				resolved = core.Hex(ip)
+			}
+		}
+	}
+	m := c.Model.Ask("socks-req-r %s %s %s %s", c12UserArg(&user), c12Literal(d.FQDN, d.Form == "domain"), resolved, core.Hex(data))
+	if cmd != 1 {
+		c12RunServeOther(c, k, srv, data, cmd, d, user, m)
+		return
+	}
 	n.arrivals(time.Millisecond) // drain
 	cl, sv := net.Pipe()
 	done := make(chan struct{})
@@ -781,7 +821,7 @@ func c12RunServe(c *core.Ctx, k c12Case) {
 	cl.Write(data)
 	code, _ := c12ReadReply(cl)
 	var arrived []string
-	if code == 0 && strings.HasPrefix(m, "ok connect ") {
+	if code == 0 && strings.HasPrefix(m, "ok dial addr:") {
 		// expected arrival: wait generously for it (a passing run returns at once)
 		arrived = n.arrivalAt(k.Listener, 5*time.Second)
 	}
@@ -809,10 +849,35 @@ func c12RunServe(c *core.Ctx, k c12Case) {
 		if code != want || len(arrived) != 0 {
 			c.Disagree("C12/corr/serve/reply", fmt.Sprintf("model: %s; impl: reply %d, arrivals %v (request %x user %q)", m, code, arrived, data, user), k)
 		}
-	case strings.HasPrefix(m, "ok connect "):
-		// every end-to-end destination is one of the listeners, so the dial succeeds: reply 00 + arrival
-		if code != 0 || len(arrived) != 1 || arrived[0] != k.Listener {
-			c.Disagree("C12/corr/serve/connect", fmt.Sprintf("model: %s; impl: reply %d, arrivals %v, expected one arrival at %s (request %x user %q)", m, code, arrived, k.Listener, data, user), k)
+	case strings.HasPrefix(m, "ok dial addr:"):
+		// every end-to-end destination is one of the listeners, so the dial succeeds: reply 00 + arrival at
+		// the listener of the DIALLED address's family (the model names the address DialContext gets)
+		want := k.Listener
+		if f := strings.Split(strings.TrimPrefix(m, "ok dial addr:"), ":"); len(f) == 2 {
+			ip := net.IP(core.UnHex(f[0]))
+			if ip.To4() != nil {
+				want = "tcp4"
+			} else {
+				want = "tcp6"
+			}
+			if d.Form == "domain" && d.FQDN != "" {
+				if cls, _, _, _, _ := c12DstClass(d); cls == "name" {
+					if mayLoop, _, _ := c12May(k.Cfg, k.User); !mayLoop && len(arrived) == 1 {
+						c12ScopeConnect++
+					}
+				}
+				_, lo, _, pr, _ := c12DstClass(c12Dst{IP: ip, Form: "ipv6"})
+				c.Hist("serve_resolved", fmt.Sprintf("name->%s/local=%v/private=%v", map[bool]string{true: "v4", false: "v6"}[ip.To4() != nil], lo, pr))
+			}
+		}
+		if code != 0 || len(arrived) != 1 || arrived[0] != want || want != k.Listener {
+			c.Disagree("C12/corr/serve/connect", fmt.Sprintf("model: %s; impl: reply %d, arrivals %v, expected one arrival at %s (request %x user %q)", m, code, arrived, want, data, user), k)
+		}
+	case m == "ok dial unresolved" || strings.HasPrefix(m, "ok dial local:"):
+		// ":port" reaches the local machine (operating system behaviour, observed): an arrival is expected but
+		// where is not asserted; `unresolved` cannot be dialled (serveRequestR answers 04 first)
+		if m == "ok dial unresolved" || code != 0 || len(arrived) != 1 {
+			c.Disagree("C12/corr/serve/connect-local", fmt.Sprintf("model: %s; impl: reply %d, arrivals %v (request %x user %q)", m, code, arrived, data, user), k)
 		}
 	case strings.HasPrefix(m, "ok forward"):
 		if !bytes.Equal(forwarded, data) || len(arrived) != 0 {
@@ -831,6 +896,63 @@ func c12RunServe(c *core.Ctx, k c12Case) {
 		if code != 2 || len(arrived) != 0 {
 			c.Violate(fmt.Sprintf("C12/serve/connect/dst=%s", class),
 				fmt.Sprintf("CONNECT to %s destination by a user without the allow flag: reply code %d, connections arrived at the local listener: %v (request %x, user %q)", class, code, arrived, data, user), k)
+		}
+	}
+}
+
+// c12RunServeOther: BIND, UDP ASSOCIATE and unknown commands through ServeConn — `handleRequest` resolves a
+// domain-typed address before it looks at the command (reply 04 when that fails); only the reply is compared.
+func c12RunServeOther(c *core.Ctx, k c12Case, srv *socks5.Server, data []byte, cmd byte, d c12Dst, user, m string) {
+	cl, sv := net.Pipe()
+	done := make(chan struct{})
+	go func() {
+		defer close(done)
+		defer func() { recover() }()
+		srv.ServeConn(&c12Conn{Conn: sv, user: user})
+	}()
+	cl.SetWriteDeadline(time.Now().Add(3 * time.Second))
+	cl.Write(data)
+	code, _ := c12ReadReply(cl)
+	cl.Close()
+	select {
+	case <-done:
+	case <-time.After(5 * time.Second):
+		c.Disagree("C12/corr/serve/hang", "ServeConn did not return after the client closed", k)
+	}
+	class, _, strict, priv, _ := c12DstClass(d)
+	c.Eval(fmt.Sprintf("serve-other/%s/%s/%s", c12ModelCfg(k.Cfg), user, k.Data), true)
+	c.Compared()
+	c.Res.TracesValidated++
+	c.Hist("serve", fmt.Sprintf("%s/%s/reply=%d", c12CmdName(cmd), class, code))
+	switch {
+	case strings.HasPrefix(m, "ok reply "):
+		want, _ := strconv.Atoi(strings.TrimPrefix(m, "ok reply "))
+		if code != want {
+			c.Disagree("C12/corr/serve/reply", fmt.Sprintf("model: %s; impl: reply %d (request %x user %q)", m, code, data, user), k)
+		}
+	case m == "ok associate":
+		if code != 0 {
+			c.Disagree("C12/corr/serve/associate", fmt.Sprintf("model: %s; impl: reply %d (request %x user %q)", m, code, data, user), k)
+		}
+	case m == "ok noreply":
+		if code != -1 {
+			c.Disagree("C12/corr/serve/noreply", fmt.Sprintf("model: closed without reply; impl: reply %d (request %x)", code, data), k)
+		}
+	case strings.HasPrefix(m, "ok forward"):
+		// PROXY decision for a non-CONNECT command: the stand-in proxy is not played here; only "no success reply
+		// from this server" is checked
+		if code == 2 {
+			c.Disagree("C12/corr/serve/forward", fmt.Sprintf("model: %s; impl: reply 2", m), k)
+		}
+	default:
+		c.Disagree("C12/corr/model-reply", "model did not answer socks-req-r: "+m, k)
+	}
+	// direct oracle: a UDP ASSOCIATE whose address is a literal loopback / local name / private address is refused
+	if cmd == 3 {
+		mayLoop, mayPriv, _ := c12May(k.Cfg, k.User)
+		if ((strict && !mayLoop) || (priv && !mayPriv)) && code != 2 {
+			c.Violate(fmt.Sprintf("C12/serve/udp-associate/dst=%s", class),
+				fmt.Sprintf("UDP ASSOCIATE naming a %s address by a user without the allow flag: reply code %d (request %x, user %q)", class, code, data, user), k)
 		}
 	}
 }
@@ -923,14 +1045,16 @@ func c12RunUDP(c *core.Ctx, k c12Case) {
 		send = func(pkt []byte) error { _, err := tun.Write(pkt); return err }
 	}
 	type sentPkt struct {
-		hdr     []byte
-		payload []byte
-		model   string
-		dst     c12Dst
-		lis     string
-		opt     bool
+		hdr       []byte
+		payload   []byte
+		model     string
+		dst       c12Dst
+		lis       string
+		opt       bool
+		malformed bool
 	}
 	var pkts []sentPkt
+	var runArgs []string
 	for i, hx := range k.Datagrams {
 		lis := "udp4"
 		if i < len(k.Listeners) {
@@ -940,19 +1064,63 @@ func c12RunUDP(c *core.Ctx, k c12Case) {
 		// not asserted (e.g. 0.0.0.0 from a dual-stack socket)
 		optional := strings.HasPrefix(lis, "?")
 		lis = strings.TrimPrefix(lis, "?")
+		raw := core.UnHex(hx)
 		port := n.port(lis)
-		if port == 0 {
+		if port == 0 && !strings.HasPrefix(lis, "!") {
 			continue
 		}
-		hdr := c12PatchPort(core.UnHex(hx), port)
+		if strings.HasPrefix(lis, "!") {
+			// a deliberately malformed datagram, sent as it is (no port patch, no payload appended)
+			m := c.Model.Ask("socks-udp %s none %s", c12UserArg(&user), core.Hex(raw))
+			pkts = append(pkts, sentPkt{hdr: raw, model: m, lis: lis, malformed: true})
+			runArgs = append(runArgs, "none", core.Hex(raw))
+			continue
+		}
+		hdr := c12PatchPort(raw, port)
 		d, _, ok := c12ParseAddr(hdr[3:])
 		if !ok || len(hdr) < 4 || hdr[0] != 0 || hdr[1] != 0 || hdr[2] != 0 {
-			continue // the end-to-end scenario relays well-formed datagrams only
+			continue
 		}
 		payload := []byte(fmt.Sprintf("c12-%d-%d", c.Res.Evaluations, i))
-		m := c.Model.Ask("socks-udp %s %s %s", c12UserArg(&user), c12Literal(d.FQDN, d.Form == "domain"), core.Hex(append(append([]byte(nil), hdr...), payload...)))
-		pkts = append(pkts, sentPkt{hdr, payload, m, d, lis, optional})
-		if err := send(append(append([]byte(nil), hdr...), payload...)); err != nil {
+		lit := c12Literal(d.FQDN, d.Form == "domain")
+		m := c.Model.Ask("socks-udp %s %s %s", c12UserArg(&user), lit, core.Hex(append(append([]byte(nil), hdr...), payload...)))
+		pkts = append(pkts, sentPkt{hdr: hdr, payload: payload, model: m, dst: d, lis: lis, opt: optional})
+		runArgs = append(runArgs, lit, core.Hex(append(append([]byte(nil), hdr...), payload...)))
+	}
+	// the whole association through the model's relay loop: the i-th event must be the i-th datagram's own
+	// decision, whatever was sent before it (seeded change C12-3: a cache filled before the filter)
+	loopEnds := false
+	if len(pkts) > 0 {
+		run := c.Model.Ask("socks-udp-run %s %s %s", k.Mode, c12UserArg(&user), strings.Join(runArgs, " "))
+		evs := strings.Fields(strings.TrimPrefix(run, "ok"))
+		c.Compared()
+		if !strings.HasPrefix(run, "ok") || len(evs) != len(pkts) {
+			c.Disagree("C12/corr/model-reply", "model did not answer socks-udp-run: "+run, k)
+			return
+		}
+		for i := range pkts {
+			single := strings.Replace(strings.TrimPrefix(pkts[i].model, "ok "), " ", ":", 1)
+			if evs[i] == "notread" {
+				pkts[i].model = "ok notread"
+				continue
+			}
+			if evs[i] != single {
+				c.Disagree("C12/corr/udp/run-vs-single", fmt.Sprintf("datagram %d of the association: relay loop model says %s, the datagram alone %s", i, evs[i], single), k)
+			}
+			if evs[i] == "invalid" && k.Mode == "stream" {
+				loopEnds = true
+			}
+		}
+	}
+	for _, p := range pkts {
+		pkt := p.hdr
+		if !p.malformed {
+			pkt = append(append([]byte(nil), p.hdr...), p.payload...)
+		}
+		if err := send(pkt); err != nil {
+			if loopEnds {
+				break // the relay has returned and closed the tunnel under us: expected
+			}
 			c.Disagree("C12/corr/udp/send", "cannot hand a datagram to the relay: "+err.Error(), k)
 			return
 		}
@@ -978,7 +1146,13 @@ func c12RunUDP(c *core.Ctx, k c12Case) {
 	// says is relayed to a reachable listener; then a short grace period for anything else
 	deadline := time.Now().Add(5 * time.Second)
 	complete := func() bool {
-		if !arrived["sentinel4"] || (n.udp6 != nil && !arrived["sentinel6"]) {
+		if loopEnds {
+			select {
+			case <-done:
+			default:
+				return false
+			}
+		} else if !arrived["sentinel4"] || (n.udp6 != nil && !arrived["sentinel6"]) {
 			return false
 		}
 		for _, p := range pkts {
@@ -992,22 +1166,48 @@ func c12RunUDP(c *core.Ctx, k c12Case) {
 		collect(n.udp4, 20*time.Millisecond)
 		collect(n.udp6, 20*time.Millisecond)
 	}
-	if !arrived["sentinel4"] {
+	if loopEnds {
+		// packet-over-stream mode stops at the first datagram it cannot parse: the sentinels are behind it and
+		// must NOT arrive; ServeConn returns on its own
+		if arrived["sentinel4"] {
+			c.Disagree("C12/corr/udp/loop-end", "model: the relay loop returns at the malformed datagram; impl: a later datagram was still relayed", k)
+		}
+		select {
+		case <-done:
+		case <-time.After(5 * time.Second):
+			c.Disagree("C12/corr/udp/loop-end", "model: the relay loop returns at the malformed datagram; impl: ServeConn is still running", k)
+		}
+	} else if !arrived["sentinel4"] {
 		c.Disagree("C12/corr/udp/sentinel", "a datagram to an ordinary name (resolved to the local listener) was not relayed: the association is not working", k)
 		return
 	}
 	collect(n.udp4, 60*time.Millisecond)
 	collect(n.udp6, 60*time.Millisecond)
 	mayLoop, mayPriv, _ := c12May(k.Cfg, k.User)
+	seen := map[string]int{}
 	for _, p := range pkts {
+		if p.malformed {
+			c.Hist("udp", fmt.Sprintf("%s/malformed/%s", k.Mode, strings.TrimPrefix(p.model, "ok ")))
+			if p.model != "ok invalid" && p.model != "ok notread" {
+				c.Disagree("C12/corr/udp/"+k.Mode, fmt.Sprintf("malformed datagram %x: model %s", p.hdr, p.model), k)
+			}
+			continue
+		}
 		class, local, _, priv, _ := c12DstClass(p.dst)
 		got := arrived[string(p.payload)]
+		if class == "name" && got && !mayLoop {
+			c12ScopeDatagram++
+		}
+		seen[string(p.hdr)]++
+		if nth := seen[string(p.hdr)]; nth > 1 {
+			c.Hist("udp_repeat", fmt.Sprintf("%s/%s/nth=%d/arrived=%v", k.Mode, class, nth, got))
+		}
 		c.Eval(fmt.Sprintf("udp/%s/%s/%s/%x", k.Mode, c12ModelCfg(k.Cfg), user, p.hdr), true)
 		c.Compared()
 		c.Res.TracesValidated++
 		c.Hist("udp", fmt.Sprintf("%s/%s/arrived=%v", k.Mode, class, got))
 		switch {
-		case p.model == "ok dropped" || p.model == "ok unresolvable":
+		case p.model == "ok dropped" || p.model == "ok unresolvable" || p.model == "ok notread":
 			if got {
 				c.Disagree("C12/corr/udp/"+k.Mode, fmt.Sprintf("datagram header %x user %q: model %s, but it arrived at the listener", p.hdr, user, p.model), k)
 			}
@@ -1149,7 +1349,9 @@ func c12NameDsts(c *core.Ctx) []c12Dst {
 	names = append(names,
 		"", "localhoſt", "LOCALHOſT", "ip6-loopbacK", "localhost\xff", "löcalhost", "LOCALHOST4.localdomain4",
 		"127.0.0.1", "127.255.255.254", "10.0.0.1", "172.16.0.1", "192.168.1.1", "0.0.0.0", "::1", "::", "::ffff:127.0.0.1", "::ffff:10.1.2.3", "fd00::2", "[::1]", "127.1", "2130706433", "0x7f.0.0.1", "127.0.0.1.", "8.8.8.8", "2001:db8::1", "1.2.3.4.5",
-		"example.com", "www.example.com", "notexample.com", "com", "EXAMPLE.COM", "a.b.example.com.", strings.Repeat("a", 255), "sentinel.test")
+		// IPv6 zones: the resolver drops the zone and returns the address; net.ParseIP rejects the text (audit GAP-1)
+		"::1%x", "::1%", "::%1", "::ffff:127.0.0.1%1", "::ffff:10.0.0.1%eth0", "fd00::2%eth0", "fe80::1%eth0", "2001:db8::1%x", "127.0.0.1%1", "10.0.0.1%x", "localhost%x", "%", "%::1", "::1%x%y", "a%b",
+		"example.com", "www.example.com", "notexample.com", "com", "EXAMPLE.COM", "a.b.example.com.", strings.Repeat("a", 255), strings.Repeat("a", 254), "a", "sentinel.test")
 	var out []c12Dst
 	for _, n := range names {
 		out = append(out, c12Dst{FQDN: n, Port: 80, Form: "domain"})
@@ -1340,7 +1542,11 @@ func init() {
 				{c12Dst{FQDN: "0.0.0.0", Form: "domain"}, "tcp4"},
 				{c12Dst{FQDN: "::1", Form: "domain"}, "tcp6"},
 				{c12Dst{FQDN: "::ffff:127.0.0.1", Form: "domain"}, "tcp4"},
+				{c12Dst{FQDN: "::1%x", Form: "domain"}, "tcp6"}, // zoned literals: the resolver drops the zone
+				{c12Dst{FQDN: "::ffff:127.0.0.1%1", Form: "domain"}, "tcp4"},
+				{c12Dst{FQDN: "::%1", Form: "domain"}, "tcp6"},
 				{c12Dst{FQDN: "sentinel.test", Form: "domain"}, "tcp4"}, // an ordinary name: never refused by step 1
+				{c12Dst{FQDN: "rebind.test6", Form: "domain"}, "tcp6"},
 			}
 			for _, cfg := range []*c12Cfg{plain, proxied, rejecting, ald} {
 				for _, e := range e2e {
@@ -1353,6 +1559,26 @@ func init() {
 					}
 				}
 			}
+			// BIND / UDP ASSOCIATE / unknown commands through ServeConn: resolution happens before the dispatch on the
+			// command (04 when it fails), a literal loopback / local name / private address in an ASSOCIATE is refused
+			for _, cfg := range []*c12Cfg{plain, rejecting} {
+				for _, cmd := range []byte{3, 2, 9} {
+					for _, d := range []c12Dst{
+						{FQDN: "nxdomain.invalid", Form: "domain"}, {FQDN: "sentinel.test", Form: "domain"}, {FQDN: "LOCALHOST", Form: "domain"},
+						{FQDN: "::1%x", Form: "domain"}, {FQDN: "10.0.0.1", Form: "domain"}, {FQDN: "", Form: "domain"},
+						c12IPDst([]byte{127, 0, 0, 1}, 7), c12IPDst([]byte{10, 0, 0, 1}, 7), c12IPDst([]byte{0, 0, 0, 0}, 0), c12IPDst([]byte{8, 8, 8, 8}, 7),
+					} {
+						for _, u := range []*string{strp("u0"), strp("uL"), strp("uP")} {
+							if cmd != 3 && *u != "u0" && !c.Thorough() {
+								continue
+							}
+							c12Run(c, c12Case{Kind: "serve", Cfg: cfg, User: u, Data: core.Hex(c12Req(cmd, d)), Listener: "tcp4", Label: "other-command"})
+						}
+					}
+				}
+			}
+			// a CONNECT to a name the resolver cannot resolve: 04, nothing dialled
+			c12Run(c, c12Case{Kind: "serve", Cfg: plain, User: strp("u0"), Data: core.Hex(c12Req(1, c12Dst{FQDN: "nxdomain.invalid", Form: "domain"})), Listener: "tcp4", Label: "unresolvable"})
 			// UDP associations
 			hdr := func(d c12Dst) string { return core.Hex(append([]byte{0, 0, 0}, c12Req(0, d)[3:]...)) }
 			type udpDst struct {
@@ -1369,8 +1595,20 @@ func init() {
 				{c12Dst{FQDN: "localhost", Form: "domain"}, "udp4"},
 				{c12Dst{FQDN: "127.0.0.1", Form: "domain"}, "udp4"},
 				{c12Dst{FQDN: "ip6-loopback", Form: "domain"}, "udp6"},
+				{c12Dst{FQDN: "::1%x", Form: "domain"}, "udp6"},
+				{c12Dst{FQDN: "::ffff:127.0.0.1%1", Form: "domain"}, "udp4"},
 				{c12Dst{FQDN: "other.test", Form: "domain"}, "udp4"},
 				{c12Dst{FQDN: "other.test6", Form: "domain"}, "udp6"},
+			}
+			// malformed datagrams inside an association: skipped in datagram mode, the end of the loop in
+			// packet-over-stream mode (nothing behind them is relayed)
+			for _, mode := range []string{"stream", "datagram"} {
+				for _, bad := range []string{"000001", "00000101020304", "0100000108080808003561", "0000010108080808003561", "00000009080808080035", "000000037f", "-"} {
+					okH := hdr(c12Dst{FQDN: "other.test", Form: "domain"})
+					noH := hdr(c12IPDst([]byte{127, 0, 0, 1}, 0))
+					c12Run(c, c12Case{Kind: "udp", Mode: mode, Cfg: plain, User: strp("u0"),
+						Datagrams: []string{okH, noH, bad, okH, noH}, Listeners: []string{"udp4", "udp4", "!", "udp4", "udp4"}, Label: "malformed"})
+				}
 			}
 			for _, mode := range []string{"stream", "datagram"} {
 				for _, cfg := range []*c12Cfg{plain, ald} {
@@ -1382,6 +1620,16 @@ func init() {
 						}
 						// one association carrying all of them, then one association per datagram
 						c12Run(c, c12Case{Kind: "udp", Mode: mode, Cfg: cfg, User: u, Datagrams: hs, Listeners: ls, Label: "all"})
+						// EVERY quick run: one association in which every header is sent THREE times, refused and
+						// allowed destinations interleaved (a refused destination must stay refused: seeded C12-3)
+						if cfg == plain {
+							var h3, l3 []string
+							for r := 0; r < 3; r++ {
+								h3 = append(h3, hs...)
+								l3 = append(l3, ls...)
+							}
+							c12Run(c, c12Case{Kind: "udp", Mode: mode, Cfg: cfg, User: u, Datagrams: h3, Listeners: l3, Label: "thrice"})
+						}
 						if cfg == plain && (c.Thorough() || u != nil && *u == "u0") {
 							for i := range hs {
 								c12Run(c, c12Case{Kind: "udp", Mode: mode, Cfg: cfg, User: u, Datagrams: hs[i : i+1], Listeners: ls[i : i+1], Label: "single"})
@@ -1390,6 +1638,7 @@ func init() {
 					}
 				}
 			}
+			c.Note("scope boundary, NOT a violation (property text lists literal addresses, the empty/unspecified host and the well-known names; theorem resolved_name_reaches_loopback_witness): %d CONNECTs and %d relayed datagrams by users without the loopback flag to ordinary names (*.test) that the stand-in resolver maps to 127.0.0.1 / ::1 were dialled and arrived at the loopback listeners — the resolver's answer is not classified again", c12ScopeConnect, c12ScopeDatagram)
 		},
 		Replay: func(c *core.Ctx, raw json.RawMessage) {
 			var k c12Case
